@@ -66,7 +66,7 @@ def gen_input(rng, family, dim, periodic, nmax=40):
     def rnd_pt():
         return [inp["anchor"][k] + inp["width"][k] * rng.unit() for k in range(3)]
 
-    n = rng.range(2, nmax)
+    n = rng.range(2, max(2, nmax))
     gens = []
     if family == "uniform":
         gens = [rnd_pt() for _ in range(n)]
